@@ -275,6 +275,9 @@ func (e *Engine) model(st *State, fr *Frame, x *ssa.Call, callee *ssa.Function, 
 		if ok && okn {
 			st.addLE(V(r), strLen(h).Sub(strLen(n)))
 			st.addLE(V(r), strLen(h))
+			if h.Const == nil && name == "strings.Index" {
+				st.hits[r] = searchHit{h: h, c: -1, mask: fullMask(), nlen: strLen(n)}
+			}
 			if n.Const == nil && h.Const == nil && n.Root == h.Root && e.proveLE(st, h.Lo, n.Lo) && e.proveLE(st, n.Hi, h.Hi) {
 				// needle is a substring of the haystack itself: always found, at or before its own offset
 				st.addLE(K(0), V(r))
@@ -361,7 +364,13 @@ func (e *Engine) applySearchAxioms(st *State) {
 	if len(st.hits) == 0 {
 		return
 	}
-	for r, h := range st.hits {
+	var rs []Sym
+	for r := range st.hits {
+		rs = append(rs, r)
+	}
+	sortSyms(rs)
+	for _, r := range rs {
+		h := st.hits[r]
 		used := false
 		for _, c := range st.cons {
 			if c.Has(r) {
